@@ -249,3 +249,24 @@ func (c *Ctx) rootsOf(f *ssa.Function, up int) []*ssa.Function {
 }
 
 const deepDefault = 4
+
+// isRangeFuncPanic: the panic is one of the compiler's own checks of the range-over-func protocol (go/ssa emits them
+// in "rangefunc.*" blocks and in the synthetic yield function), not a panic written in the source.
+func isRangeFuncPanic(in ssa.Instruction) bool {
+	p, ok := in.(*ssa.Panic)
+	if !ok {
+		return false
+	}
+	if strings.HasPrefix(in.Block().Comment, "rangefunc") || in.Block().Comment == "yield-invalid" {
+		return true
+	}
+	if mi, ok := p.X.(*ssa.MakeInterface); ok {
+		if k, ok := mi.X.(*ssa.Const); ok && k.Value != nil {
+			s := k.Value.ExactString()
+			if strings.Contains(s, "range function continued iteration") || strings.Contains(s, "iterator call did not preserve panic") || strings.Contains(s, "yield function called after range loop exit") {
+				return true
+			}
+		}
+	}
+	return false
+}
